@@ -1,8 +1,11 @@
 from ..fam import listtbl
 
 
+from ..fam import history
+
+
 def cases(tier):
-    return listtbl.cases(tier, 'func')
+    return history.map_cases(tier, 3) + listtbl.cases(tier, 'func')
 
 
 def meta(tier):
@@ -11,7 +14,7 @@ def meta(tier):
             'outside': ['tables with more entries than the bound; names longer than 2 characters or outside {a,A,b}; values longer than 2 bytes (3 for strings)',
                         'putstrf() and debug() (printf-style formatting / FILE output)',
                         'save/load: names containing the separator, blanks or "#" (the save format does not encode names), encode=false, separators other than "="',
-                        'histories are covered through the inductive argument only: base (constructor) + one step from every valid state within the bound, for each of the 16 option combinations'],
+                        'three-call histories through the public API (every triple of put/get/remove/size/clear, symbolic keys out of four and values) complement the one-step queries', 'histories are covered through the inductive argument only: base (constructor) + one step from every valid state within the bound, for each of the 16 option combinations'],
             'stubs': i['stubs'],
             'assumptions': [i['prestate'], 'malloc does not fail here (C15 covers failure)',
                             'getint is applied to NUL-terminated values only (it reads the value as a C string)'],
